@@ -166,6 +166,12 @@ func (self *Compiler) compileProgram(
 			}
 		}
 
+		// The `@init` function of the entry module is terminated after all other modules were visited.
+		// Every other `@init` function ends here: the VM cannot execute an empty function.
+		if moduleName != entryPointModule {
+			self.insert(newPrimitiveInstruction(Opcode_Return), errors.Span{})
+		}
+
 		// Mangle all functions so that later stages know about them.
 		for _, fn := range module.Functions {
 			mangled := self.mangleFn(fn.Ident.Ident())
